@@ -509,6 +509,9 @@ func vfC17Nested(h http.Handler, src vfC17Source, custom, standard string, at in
 
 // vfC17CheckOwn checks one response of an overlapped pair against its own
 // uncompressed body: lossless, stamped as negotiated, never somebody else's bytes.
+// vfC17CheckTag is the signature space tag used by vfC17CheckOwn ("overlap" or "history").
+var vfC17CheckTag = "overlap"
+
 func vfC17CheckOwn(x *venum.X, who, point string, src vfC17Source, custom, standard string, raw []byte, rec *httptest.ResponseRecorder) string {
 	hdr, body := rec.Header(), rec.Body.Bytes()
 	std, cst := hdr.Values(contentEncodingHeader), hdr.Values(customContentEncodingHeader)
@@ -520,7 +523,7 @@ func vfC17CheckOwn(x *venum.X, who, point string, src vfC17Source, custom, stand
 	case len(std) == 0 && len(cst) == 1:
 		stamped, stampCustom = cst[0], true
 	default:
-		x.Failf("C17:overlap:double-stamp:"+who+":"+point, "%s: Content-Encoding=%v X-VGI-Content-Encoding=%v", src.name, std, cst)
+		x.Failf("C17:"+vfC17CheckTag+":double-stamp:"+who+":"+point, "%s: Content-Encoding=%v X-VGI-Content-Encoding=%v", src.name, std, cst)
 		return "double"
 	}
 	adv, _ := vfC17Advertised(hdr)
@@ -533,22 +536,22 @@ func vfC17CheckOwn(x *venum.X, who, point string, src vfC17Source, custom, stand
 	switch {
 	case stamped == "":
 		if !bytes.Equal(body, raw) {
-			x.Failf("C17:overlap:unstamped-body-differs:"+who+":"+point, "%s: body (%d B) differs from this request's uncompressed body (%d B) while another response was served at %s", src.name, len(body), len(raw), point)
+			x.Failf("C17:"+vfC17CheckTag+":unstamped-body-differs:"+who+":"+point, "%s: body (%d B) differs from this request's uncompressed body (%d B) while another response was served at %s", src.name, len(body), len(raw), point)
 		}
 		if isArrow && src.big && !want[vfC17Pick{}] {
-			x.Failf("C17:overlap:not-compressed:"+who+":"+point, "%s custom=%q standard=%q: not compressed", src.name, custom, standard)
+			x.Failf("C17:"+vfC17CheckTag+":not-compressed:"+who+":"+point, "%s custom=%q standard=%q: not compressed", src.name, custom, standard)
 		}
 	case !isArrow:
-		x.Failf("C17:overlap:non-arrow-compressed:"+who+":"+point, "%s stamped %q", src.name, stamped)
+		x.Failf("C17:"+vfC17CheckTag+":non-arrow-compressed:"+who+":"+point, "%s stamped %q", src.name, stamped)
 	default:
 		if !want[vfC17Pick{stamped, stampCustom}] {
-			x.Failf("C17:overlap:stamp:"+who+":"+codec+":"+point, "%s custom=%q standard=%q: stamped %q (custom header=%v), statement allows %s", src.name, custom, standard, stamped, stampCustom, vfC17RefString(want))
+			x.Failf("C17:"+vfC17CheckTag+":stamp:"+who+":"+codec+":"+point, "%s custom=%q standard=%q: stamped %q (custom header=%v), statement allows %s", src.name, custom, standard, stamped, stampCustom, vfC17RefString(want))
 		}
 		dec, err := vfC17Decode(stamped, body)
 		if err != nil {
-			x.Failf("C17:overlap:undecodable:"+who+":"+codec+":"+point, "%s: body does not decode as %s when another response is served at %s: %v", src.name, stamped, point, err)
+			x.Failf("C17:"+vfC17CheckTag+":undecodable:"+who+":"+codec+":"+point, "%s: body does not decode as %s when another response is served at %s: %v", src.name, stamped, point, err)
 		} else if !bytes.Equal(dec, raw) {
-			x.Failf("C17:overlap:lossy:"+who+":"+codec+":"+point, "%s: decoded body (%d B) is not this request's uncompressed body (%d B) when another response is served at %s", src.name, len(dec), len(raw), point)
+			x.Failf("C17:"+vfC17CheckTag+":lossy:"+who+":"+codec+":"+point, "%s: decoded body (%d B) is not this request's uncompressed body (%d B) when another response is served at %s", src.name, len(dec), len(raw), point)
 		}
 	}
 	return fmt.Sprintf("%s/%v/%d", codec, stampCustom, rec.Code)
@@ -595,6 +598,18 @@ func TestVerif_C17(t *testing.T) {
 
 	// ---- space 2: through a real server ----------------------------------------
 	sources := vfC17Sources()
+	if !venum.Thorough() {
+		// quick keeps 9 of the 12 sources (one per content type x size class)
+		var keep []vfC17Source
+		for _, src := range sources {
+			switch src.name {
+			case "arrow-unary-64K-incompressible", "json-custom-empty", "html-custom-64K":
+			default:
+				keep = append(keep, src)
+			}
+		}
+		sources = keep
+	}
 	customLen := 1
 	standardLen := venum.QT(1, 2)
 	venum.Explore(t, venum.Cfg{Name: "server-roundtrip", Shardable: true}, func(x *venum.X) {
@@ -788,6 +803,49 @@ func TestVerif_C17(t *testing.T) {
 		x.Outcome("%s code=%d adv=%v produced=%v lerr=%v", k.name, rec.Code, adv, produced, lerr != nil)
 	})
 
+	// ---- space 3b: request histories on one server ------------------------------------
+	// The answer to a request depends on ITS accept headers only, not on what the
+	// server negotiated before: every pair of header pairs (each header a token
+	// sequence of length <=2 over a small alphabet that includes the empty list
+	// element) is sent as two consecutive requests to one fresh server; both
+	// responses are checked against the reference and their own uncompressed body.
+	histAlphabet := venum.QT([]string{"zstd", "gzip", ""}, []string{"zstd", "gzip", "br", "identity", ""})
+	histSrc := vfC17Source{name: "arrow-custom-3000-compressible", method: "GET", path: "/x/arrow/3000/c", arrow: true}
+	var histRaw []byte
+	venum.Explore(t, venum.Cfg{Name: "request-histories", Shardable: true}, func(x *venum.X) {
+		c1 := vfC17Header(x, "first-custom", 2, histAlphabet)
+		s1 := vfC17Header(x, "first-standard", 2, histAlphabet)
+		c2 := vfC17Header(x, "second-custom", 2, histAlphabet)
+		s2 := vfC17Header(x, "second-standard", 2, histAlphabet)
+		h, _ := vfC17Server(0, false)
+		if histRaw == nil {
+			_, _, raw, _ := vfC17Do(h, histSrc, "", "", false, false)
+			histRaw = append([]byte{}, raw...)
+			h, _ = vfC17Server(0, false)
+		}
+		rel := "after-unrelated-headers"
+		switch {
+		case c1 == c2 && s1 == s2:
+			rel = "after-identical-headers"
+		case c1+","+s1 == c2+","+s2:
+			rel = "after-same-tokens-split-differently"
+		case c1 == s2 && s1 == c2:
+			rel = "after-swapped-headers"
+		}
+		r1, _, p1 := vfC17Nested(h, histSrc, c1, s1, -1, nil)
+		r2, _, p2 := vfC17Nested(h, histSrc, c2, s2, -1, nil)
+		if p1 != nil || p2 != nil {
+			x.Failf("C17:history:panic", "%v / %v", p1, p2)
+			return
+		}
+		x.Note("first request custom=%q standard=%q ; second request custom=%q standard=%q", c1, s1, c2, s2)
+		vfC17CheckTag = "history"
+		o1 := vfC17CheckOwn(x, "first-request", "fresh-server", histSrc, c1, s1, histRaw, r1)
+		o2 := vfC17CheckOwn(x, "second-request", rel, histSrc, c2, s2, histRaw, r2)
+		vfC17CheckTag = "overlap"
+		x.Outcome("%s %s -> %s", rel, o1, o2)
+	})
+
 	// ---- space 4: two responses overlapping ------------------------------------
 	blob := func(n, kind int64) func() []byte {
 		return func() []byte {
@@ -825,7 +883,7 @@ func TestVerif_C17(t *testing.T) {
 		// the outer request alone: its event trace defines the nesting points
 		_, trace, p := vfC17Nested(h, o, oa.custom, oa.standard, -1, nil)
 		if p != nil || len(trace) == 0 {
-			x.Failf("C17:overlap:panic:outer-alone", "%v", p)
+			x.Failf("C17:"+vfC17CheckTag+":panic:outer-alone", "%v", p)
 			return
 		}
 		at := x.Choose(len(trace), "nest-at")
@@ -853,11 +911,11 @@ func TestVerif_C17(t *testing.T) {
 			irec, _, ip = vfC17Nested(h, in, ia.custom, ia.standard, -1, nil)
 		})
 		if op != nil || ip != nil {
-			x.Failf("C17:overlap:panic:"+point, "outer %v inner %v", op, ip)
+			x.Failf("C17:"+vfC17CheckTag+":panic:"+point, "outer %v inner %v", op, ip)
 			return
 		}
 		if irec == nil {
-			x.Failf("C17:overlap:trace-changed:"+point, "outer produced %d events when nested, %d alone", len(trace2), len(trace))
+			x.Failf("C17:"+vfC17CheckTag+":trace-changed:"+point, "outer produced %d events when nested, %d alone", len(trace2), len(trace))
 			return
 		}
 		oo := vfC17CheckOwn(x, "outer", point, o, oa.custom, oa.standard, oraw, orec)
